@@ -596,7 +596,7 @@ pub fn run(args: &Args, rec: &mut Recorder) {
     rec.rule = "evaluation = one input loaded with strict=true and strict=false; the relation between the two outcomes (R1 strict Ok => non-strict Ok; R2 non-strict Ok without warnings => strict Ok, equal model, no log; for IF_DATA-free inputs R3 strict fails iff non-strict reports a non-deprecation problem, R4 equal models) is checked for every input; for documents with injected faults at known lines every positioned diagnostic must carry the file name passed and a line inside the span of an injected fault of the same class. distinct_nontrivial = distinct inputs by content hash".into();
     rec.assumptions.push("MissingVersionInfo / InvalidVersion carry no position (public type); AdditionalTokensError may carry the line of the last regular token; for multiplicity errors the line must lie inside the duplicated element".into());
     let g = Grammar::load_default();
-    let total: u64 = if args.thorough { 1_000_000 } else { 30_000 };
+    let total: u64 = if args.thorough { 1_000_000 } else { 100_000 };
     let mut srng = Rng::derive(&[args.seed, 0xC06, args.shard]);
     let seeds = Seeds::build(&g, &mut srng, 10);
     let scratch = crate::c03::scratch_dir(args);
